@@ -5,7 +5,7 @@ import time
 from harness import core, connlib, serverlib
 
 PROP = "C10"
-LEAN_MODULES = ["MpgsModel.Props.C10", "MpgsModel.Props.C10Run", "MpgsModel.Props.C10Kick"]
+LEAN_MODULES = ["MpgsModel.Props.C10", "MpgsModel.Props.C10Run", "MpgsModel.Props.C10Kick", "MpgsModel.Props.C10Due"]
 MODEL_MODULES = ["MpgsModel.Model.Server", "MpgsModel.Model.ToyAead"]
 NS = "Mpgs.Server."
 THEOREMS = [
@@ -17,8 +17,16 @@ THEOREMS = [
     (NS + "C10_lifecycle_with_shutdown", "full"),
     (NS + "C10_connect_and_disconnect_once", "full"),
     (NS + "C10_kick_ends_the_round", "full"),
+    (NS + "C10_due_client_dropped", "full"),
+    (NS + "due_of_silence", "full"),
+    (NS + "due_of_closed", "full"),
 ]
 ASSUMPTIONS = [
+    "a client that is due is dropped at once (C10_due_client_dropped, due_of_silence, due_of_closed): if, after the iteration's queued "
+    "datagrams and handler.update, a connected client's connection is closed (by the handler or by the peer) or nothing authentic has "
+    "arrived from it for connection_timeout at the sweep clock, then after that very iteration it is not in the connected pool and its "
+    "identity has had its disconnect event - for every batch, handler behaviour and other client; the monitor "
+    "`silent-client-not-disconnected` states the same on the real loop",
     "server-initiated end of the round (C10_kick_ends_the_round): when handler.update disconnects every connected client, the sweep of that "
     "very iteration reports each of them with a disconnect event and the connected pool is empty afterwards, whatever was queued and "
     "whatever the other handlers do; in the runs the scripted update handler does this in about 2 % of the iterations, and in the shutdown "
